@@ -255,6 +255,9 @@ impl<'c, Param, Yield, Return> Coroutine<'c, Param, Yield, Return> {
             let co = &*co.cast::<Self>();
             let stack_ptr_in_bounds = co.stack_ptr_in_bounds(sp);
             co.inner.trap_handler().setup_trap_handler(move || {
+                // the body is abandoned, not unwound: pop its suspender here
+                // (the thread's suspender stack does not depend on the types)
+                Suspender::<(), ()>::clean_current();
                 Err(if stack_ptr_in_bounds {
                     "invalid memory reference"
                 } else {
@@ -437,11 +440,17 @@ where
         let inner = corosensei::Coroutine::with_stack(stack, move |y, p| {
             catch!(
                 move || {
+                    // pops the suspender when the body returns and when it unwinds
+                    struct CleanCurrent;
+                    impl Drop for CleanCurrent {
+                        fn drop(&mut self) {
+                            Suspender::<(), ()>::clean_current();
+                        }
+                    }
                     let suspender = Suspender::new(y);
                     Suspender::<Param, Yield>::init_current(&suspender);
-                    let r = f(&suspender, p);
-                    Suspender::<Param, Yield>::clean_current();
-                    r
+                    let _clean = CleanCurrent;
+                    f(&suspender, p)
                 },
                 format!("coroutine {co_name} failed without message"),
                 co_name
